@@ -33,3 +33,50 @@ func VH_C01_RoundTrip() {
 		l2.timeGanIndex == l.timeGanIndex && l2.timeZhiIndex == l.timeZhiIndex && l2.weekIndex == l.weekIndex)
 	vReach("C01a")
 }
+
+// vhMonthFirstJDN: JDN of day 1 of a table month (firstJulianDay is a noon-based x.0 value).
+func vhMonthFirstJDN(mm *LunarMonth) int { return int(mm.firstJulianDay + 0.5) }
+
+// C01-H1b: the lunar date of a civil day is its position in the year's month table
+// (JDN identity => order-preserving bijection given the table's contiguity, C06).
+func VH_C01_Position() {
+	Y, m, d, h, mi, s := vhMoment()
+	l := NewSolar(Y, m, d, h, mi, s).GetLunar()
+	T := specJDN(Y, m, d)
+	found := 0
+	for i := NewLunarYear(Y).months.Front(); i != nil; i = i.Next() {
+		mm := i.Value.(*LunarMonth)
+		f := vhMonthFirstJDN(mm)
+		if T >= f && T < f+mm.dayCount {
+			found++
+			vAssert("position:year", l.year == mm.year)
+			vAssert("position:month", l.month == mm.month)
+			vAssert("position:day", l.day == T-f+1)
+		}
+	}
+	vAssert("position:unique", found == 1)
+	vAssert("time-copied", l.hour == h && l.minute == mi && l.second == s)
+	vReach("C01b")
+}
+
+// C01-H2: stepping n days on the lunar side equals stepping n days on the civil side.
+func VH_C01_Step() {
+	Y, m, d, h, mi, s := vhMoment()
+	N := vParam("N")
+	n := vInt("n", -N, N)
+	sol := NewSolar(Y, m, d, h, mi, s)
+	l := sol.GetLunar()
+	t := sol.NextDay(n)
+	vAssume(t.year >= 1 && t.year <= 9998)
+	var l2 *Lunar
+	vAssert("step-no-panic", !vPanics(func() { l2 = l.Next(n) }))
+	s2 := l2.GetSolar()
+	vAssert("step-solar", s2.year == t.year && s2.month == t.month && s2.day == t.day && s2.hour == h && s2.minute == mi && s2.second == s)
+	vAssert("step-jdn", specJDN(s2.year, s2.month, s2.day) == specJDN(Y, m, d)+n)
+	// the stepped lunar date is the lunar date of the stepped civil day, and steps back
+	l3 := t.GetLunar()
+	vAssert("step-same-lunar", l2.year == l3.year && l2.month == l3.month && l2.day == l3.day)
+	b := l2.Next(-n)
+	vAssert("step-back", b.year == l.year && b.month == l.month && b.day == l.day)
+	vReach("C01c")
+}
